@@ -606,6 +606,16 @@ func Write(docs []Doc, l Layout) Result {
 				}
 			}
 			w3 := 2
+			if l.XRefW3Zero {
+				// Table 17: a width of 0 means the field is absent and takes its default (generation 0 / index 0);
+				// possible when no in-use object has a generation and no compressed entry an index other than 0
+				w3 = 0
+				for _, e := range entries {
+					if e.typ != 0 && e.f2 != 0 {
+						w3 = 2
+					}
+				}
+			}
 			var data bytes.Buffer
 			index := Arr{}
 			for i := 0; i < len(entries); {
